@@ -1474,7 +1474,15 @@ class scope(slots_getstate_setstate):
             elif name == "sequential_format":
                 sequential_format = value
                 if sequential_format is not None:
-                    assert isinstance(sequential_format % 0, str)
+                    try:
+                        formatted = sequential_format % 0
+                    except (TypeError, ValueError):
+                        formatted = None
+                    if not isinstance(formatted, str):
+                        raise RuntimeError(
+                            'Improper .sequential_format "%s": a format string for one'
+                            " integer is required%s" % (value, words[0].where_str())
+                        )
         setattr(self, name, value)
 
     def active_objects(self):
